@@ -171,7 +171,16 @@ def seeded(ctx):
     length = 30 if ctx.tier == 'quick' else 100
     jobs = [(name, data, desc) for name, data, desc in envs.shipped_envs()]
     rand_descs = [envs.rand_env(r) for _ in range(12 if ctx.tier == 'quick' else 120)]
-    for name, data, desc in jobs + [(f'random-{i}', None, d) for i, d in enumerate(rand_descs)]:
+    # deterministic layout + stochastic observation: the state after reset is the same under every seed, the observation is not
+    memo_descs = []
+    for _ in range(6 if ctx.tier == 'quick' else 40):
+        d = envs.rand_env(r)
+        d['reset'] = {'name': 'empty', 'shape': (r.randint(5, 7), r.randint(5, 7)), 'random_agent': False, 'random_exit': False}
+        d['obs'] = {'name': 'stochastic_raytracing', 'area': (-r.randint(3, 5), 0, -2, 2)}
+        d['reward'] = {'name': 'reduce_sum', 'parts': [{'name': 'living_reward', 'params': [-0.05]}]}
+        d['actions'] = list(range(8))
+        memo_descs.append(d)
+    for name, data, desc in jobs + [(f'random-{i}', None, d) for i, d in enumerate(rand_descs)] + [(f'memo-{i}', None, d) for i, d in enumerate(memo_descs)]:
         def build():
             return factory_env_from_data(copy.deepcopy(data)) if data is not None else comp.build_env(desc)
         try:
@@ -183,6 +192,9 @@ def seeded(ctx):
             seed = 0 if it == 0 else r.choice([1, r.randrange(1 << 30)])      # 0 is a seed like any other
             ops = envs.rand_ops(r, desc, r.randint(5, length))
             ops = [op for op in ops if not (op[0] == 'step' and op[1] not in desc['actions'])]
+            ops = ops[next(i for i, op in enumerate(ops) if op[0] == 'reset'):]        # episodes start with reset (b is not a fresh object)
+            if name.startswith('memo') or r.random() < 0.3:
+                ops = [('reset', None), ('obs', None)] + ops
             # A: plain.  B: the same operations, interleaved with a third environment and with disturbance of every global generator,
             #    under the opposite debug flag
             dbg = r.random() < 0.5
@@ -195,8 +207,10 @@ def seeded(ctx):
             if impl._np_legacy_state() != np0 or pyrandom.getstate() != py0 or gvrng.get_gv_rng().bit_generator.state != gv_before:
                 ctx.violation(f'{name}: a seeded environment changed a global generator state', {'env': name, 'seed': seed, 'ops': ops})
             gvdebug.reset_gv_debug(not dbg)
+            # b has a past: an earlier episode under another seed, observation requested -- none of it may leak through set_seed
+            b.set_seed(r.randrange(1 << 30))
+            transcript_ops(b, [('reset', None), ('obs', None)] + [x for _ in range(r.choice([0, 0, 1, 3])) for x in (('step', r.choice(desc['actions'])), ('obs', None))])
             b.set_seed(seed)
-            b._state = b._observation = None
             c.set_seed(r.randrange(1 << 30))
             c._state = c._observation = None
             tb = []
